@@ -66,6 +66,33 @@ type vfVec struct {
 	F    []vfField `json:"f"`
 	In   []vfVal   `json:"in"`
 	Xk   []string  `json:"xk"`
+	Ksp  string    `json:"ksp"` // spelling of the document keys: "lower" (as in the tags) / "cap"
+	Mk   string    `json:"mk"`  // first key of the map wrapper (the second one is "k2")
+}
+
+// vfKey spells a document key (field name or wrapper key) the way the vector asks for.
+func (v *vfVec) key(k string) string {
+	if v.Ksp == "cap" && k != "" {
+		return strings.ToUpper(k[:1]) + k[1:]
+	}
+	return k
+}
+
+func (v *vfVec) mapKeys() []string {
+	mk := v.Mk
+	if mk == "" {
+		mk = "k"
+	}
+	return []string{mk, "k2"}
+}
+
+func vfIsList(k string) bool { return k == "strs" || k == "ints" }
+
+func vfSplit(s string) []string {
+	if s == "" {
+		return nil
+	}
+	return strings.Split(s, ",")
 }
 
 // leaf of an input document: the value class plus the kind of the field it is meant for
@@ -123,6 +150,8 @@ func vfTagText(f vfField, variant int) string {
 			} else {
 				opts = append(opts, "default=false")
 			}
+		case vfIsList(f.K):
+			opts = append(opts, "default=["+f.Ds+"]")
 		default:
 			opts = append(opts, "default="+vfHalf(f.Dn))
 		}
@@ -176,10 +205,28 @@ func vfKindType(k string) reflect.Type {
 	switch k {
 	case "int":
 		return reflect.TypeOf(int(0))
+	case "int8":
+		return reflect.TypeOf(int8(0))
+	case "int16":
+		return reflect.TypeOf(int16(0))
+	case "int32":
+		return reflect.TypeOf(int32(0))
 	case "int64":
 		return reflect.TypeOf(int64(0))
+	case "uint":
+		return reflect.TypeOf(uint(0))
 	case "uint8":
 		return reflect.TypeOf(uint8(0))
+	case "uint16":
+		return reflect.TypeOf(uint16(0))
+	case "uint32":
+		return reflect.TypeOf(uint32(0))
+	case "uint64":
+		return reflect.TypeOf(uint64(0))
+	case "strs":
+		return reflect.TypeOf([]string(nil))
+	case "ints":
+		return reflect.TypeOf([]int(nil))
 	case "float32":
 		return reflect.TypeOf(float32(0))
 	case "float64":
@@ -258,7 +305,7 @@ func vfInner(v *vfVec, target reflect.Value, pick int) (reflect.Value, bool) {
 		if m.IsNil() {
 			return reflect.Value{}, false
 		}
-		e := m.MapIndex(reflect.ValueOf([]string{"k", "k2"}[pick%2]))
+		e := m.MapIndex(reflect.ValueOf(v.mapKeys()[pick%2]))
 		if !e.IsValid() || m.Len() != 2 {
 			return reflect.Value{}, false
 		}
@@ -276,6 +323,20 @@ func vfResult(fv reflect.Value) verifEv {
 		fv = fv.Elem()
 	}
 	switch fv.Kind() {
+	case reflect.Slice: // a list of scalars: count + texts joined by "," (nil and empty are both the empty list)
+		var items []string
+		for i := 0; i < fv.Len(); i++ {
+			e := fv.Index(i)
+			switch e.Kind() {
+			case reflect.String:
+				items = append(items, e.String())
+			case reflect.Int:
+				items = append(items, strconv.FormatInt(e.Int(), 10))
+			default:
+				return mk("other", 0, fv.Type().String())
+			}
+		}
+		return mk("list", fv.Len(), strings.Join(items, ","))
 	case reflect.Int, reflect.Int8, reflect.Int16, reflect.Int32, reflect.Int64:
 		i := fv.Int()
 		if i > 1<<28 || i < -(1<<28) {
@@ -314,9 +375,9 @@ func vfDoc(v *vfVec) map[string]any {
 		if v.In[i].T == "absent" {
 			continue
 		}
-		inner[f.Nm] = vfLeaf{v: v.In[i], kind: f.K}
+		inner[v.key(f.Nm)] = vfLeaf{v: v.In[i], kind: f.K}
 	}
-	for _, k := range v.Xk {
+	for _, k := range v.Xk { // extra keys are not bound by the type: always spelled as they are
 		inner[k] = vfLeaf{v: vfVal{T: "str", S: "q"}, kind: "string"}
 	}
 	switch v.Wrap {
@@ -326,11 +387,12 @@ func vfDoc(v *vfVec) map[string]any {
 		if v.Wabs {
 			return map[string]any{}
 		}
-		return map[string]any{"in": inner}
+		return map[string]any{v.key("in"): inner}
 	case "slice": // two equal elements: the verdict is that of one
-		return map[string]any{"l": []any{inner, vfCopy(inner)}}
-	case "map":
-		return map[string]any{"m": map[string]any{"k": inner, "k2": vfCopy(inner)}}
+		return map[string]any{v.key("l"): []any{inner, vfCopy(inner)}}
+	case "map": // map keys are data: never respelled
+		mk := v.mapKeys()
+		return map[string]any{v.key("m"): map[string]any{mk[0]: inner, mk[1]: vfCopy(inner)}}
 	}
 	panic("verif: unknown wrapper " + v.Wrap)
 }
@@ -373,6 +435,14 @@ func vfScalarText(l vfLeaf, quoteStrings bool) string {
 		return "false"
 	case "null":
 		return "null"
+	case "list": // flow style: valid JSON, YAML and TOML
+		items := vfSplit(l.v.S)
+		if l.kind == "strs" {
+			for i := range items {
+				items[i] = strconv.Quote(items[i])
+			}
+		}
+		return "[" + strings.Join(items, ",") + "]"
 	}
 	panic("verif: unknown value class " + l.v.T)
 }
@@ -503,6 +573,20 @@ func vfGoValue(x any) any {
 			return vfHalf(t.v.N)
 		case "bool":
 			return t.v.N != 0
+		case "list":
+			out := []any{}
+			for _, it := range vfSplit(t.v.S) {
+				if t.kind == "ints" {
+					n, err := strconv.Atoi(it)
+					if err != nil {
+						panic("verif: bad list item " + it)
+					}
+					out = append(out, n)
+				} else {
+					out = append(out, it)
+				}
+			}
+			return out
 		case "num":
 			n := t.v.N
 			if n%2 != 0 {
@@ -517,9 +601,41 @@ func vfGoValue(x any) any {
 				return i
 			case "int64":
 				return int64(i)
+			case "int8":
+				if i >= math.MinInt8 && i <= math.MaxInt8 {
+					return int8(i)
+				}
+				return i
+			case "int16":
+				if i >= math.MinInt16 && i <= math.MaxInt16 {
+					return int16(i)
+				}
+				return i
+			case "int32":
+				return int32(i)
 			case "uint8":
-				if i >= 0 && i <= 255 {
+				if i >= 0 && i <= math.MaxUint8 {
 					return uint8(i)
+				}
+				return i
+			case "uint16":
+				if i >= 0 && i <= math.MaxUint16 {
+					return uint16(i)
+				}
+				return i
+			case "uint32":
+				if i >= 0 {
+					return uint32(i)
+				}
+				return i
+			case "uint":
+				if i >= 0 {
+					return uint(i)
+				}
+				return i
+			case "uint64":
+				if i >= 0 {
+					return uint64(i)
 				}
 				return i
 			case "float32":
@@ -647,9 +763,11 @@ func vfCall(v *vfVec, id int, ptr any) (call string, input string, err error) {
 	panic("verif: unknown source " + v.Src)
 }
 
-func vfRun(v *vfVec, id int) (o vfOutcome, tags []string) {
-	tp, tags := vfBuildType(v, id)
-	target := reflect.New(tp)
+// vfExec performs one call on a fresh target.  variant selects the order of the tag options
+// (hence the struct type), sel the entry point where a source has two.
+func vfExec(v *vfVec, variant, sel int) (o vfOutcome, tags []string, target reflect.Value) {
+	tp, tags := vfBuildType(v, variant)
+	target = reflect.New(tp)
 	func() {
 		defer func() {
 			if r := recover(); r != nil {
@@ -657,7 +775,7 @@ func vfRun(v *vfVec, id int) (o vfOutcome, tags []string) {
 				o.err = vfClean(fmt.Sprint(r))
 			}
 		}()
-		call, input, err := vfCall(v, id, target.Interface())
+		call, input, err := vfCall(v, sel, target.Interface())
 		o.call, o.input = call, vfClean(input)
 		if err != nil {
 			o.err = vfClean(err.Error())
@@ -665,29 +783,131 @@ func vfRun(v *vfVec, id int) (o vfOutcome, tags []string) {
 			o.acc = true
 		}
 	}()
-	none := verifEv{"t": "none", "n": 0, "s": ""}
-	if o.acc && !o.pan {
-		inner, ok := vfInner(v, target.Elem(), id)
-		for i := range v.F {
-			if ok {
-				o.out = append(o.out, vfResult(inner.Field(i)))
-			} else {
-				o.out = append(o.out, verifEv{"t": "nowrapper", "n": 0, "s": ""})
-			}
-		}
-	} else {
-		for range v.F {
-			o.out = append(o.out, none)
+	return o, tags, target
+}
+
+// vfRead reads the values a target holds: one value per field (of the entry / element
+// selected by pick for the map / slice wrappers) and the keys of the map wrapper.
+func vfRead(v *vfVec, target reflect.Value, pick int) (out []verifEv, omk []string) {
+	omk = []string{}
+	inner, ok := vfInner(v, target.Elem(), pick)
+	for i := range v.F {
+		if ok {
+			out = append(out, vfResult(inner.Field(i)))
+		} else {
+			out = append(out, verifEv{"t": "nowrapper", "n": 0, "s": ""})
 		}
 	}
-	return o, tags
+	if v.Wrap == "map" {
+		m := target.Elem().Field(0)
+		for _, k := range m.MapKeys() {
+			omk = append(omk, k.String())
+		}
+		sort.Strings(omk)
+	}
+	return out, omk
+}
+
+// vfScribble is a caller making use of its own target: everything reachable from it is
+// overwritten in place - slice elements (the backing array up to its capacity), variables
+// behind pointers, map entries, plain fields.
+func vfScribble(x reflect.Value, mark int) {
+	switch x.Kind() {
+	case reflect.Ptr:
+		if !x.IsNil() {
+			vfScribble(x.Elem(), mark)
+		}
+	case reflect.Struct:
+		for i := 0; i < x.NumField(); i++ {
+			vfScribble(x.Field(i), mark)
+		}
+	case reflect.Slice:
+		if x.IsNil() {
+			return
+		}
+		full := x.Slice(0, x.Cap())
+		for i := 0; i < full.Len(); i++ {
+			vfScribble(full.Index(i), mark)
+		}
+	case reflect.Map:
+		for _, k := range x.MapKeys() {
+			e := reflect.New(x.Type().Elem()).Elem()
+			e.Set(x.MapIndex(k))
+			vfScribble(e, mark)
+			x.SetMapIndex(k, e)
+		}
+	case reflect.String:
+		if x.CanSet() {
+			x.SetString("~" + strconv.Itoa(mark%7))
+		}
+	case reflect.Int, reflect.Int8, reflect.Int16, reflect.Int32, reflect.Int64:
+		if x.CanSet() {
+			x.SetInt(int64(90 + mark%7))
+		}
+	case reflect.Uint, reflect.Uint8, reflect.Uint16, reflect.Uint32, reflect.Uint64:
+		if x.CanSet() {
+			x.SetUint(uint64(90 + mark%7))
+		}
+	case reflect.Float32, reflect.Float64:
+		if x.CanSet() {
+			x.SetFloat(float64(90 + mark%7))
+		}
+	case reflect.Bool:
+		if x.CanSet() {
+			x.SetBool(!x.Bool())
+		}
+	}
+}
+
+func vfNone(v *vfVec) []verifEv {
+	var out []verifEv
+	for range v.F {
+		out = append(out, verifEv{"t": "none", "n": 0, "s": ""})
+	}
+	return out
+}
+
+// vfVecEvent: the "vec" event of one call (vector fields copied from the generated line).
+func vfVecEvent(raw map[string]any, id, pass int, o vfOutcome, tags []string, out []verifEv, omk []string, tg int, keep bool) verifEv {
+	ev := verifEv{}
+	for k, x := range raw {
+		ev[k] = x
+	}
+	ev["e"] = "vec"
+	ev["id"] = id
+	ev["pass"] = pass
+	ev["acc"] = o.acc
+	ev["pan"] = o.pan
+	ev["out"] = out
+	ev["omk"] = omk
+	ev["tg"] = tg
+	ev["keep"] = keep
+	ev["Err"] = o.err
+	ev["Tags"] = tags
+	ev["Call"] = o.call
+	ev["Input"] = o.input
+	return ev
+}
+
+// vfRun: one call; the outcome is read, then the caller overwrites its target and drops it.
+func vfRun(v *vfVec, id int) (o vfOutcome, tags []string, omk []string) {
+	o, tags, target := vfExec(v, id, id)
+	omk = []string{}
+	if o.acc && !o.pan {
+		o.out, omk = vfRead(v, target, id)
+		vfScribble(target.Elem(), id)
+	} else {
+		o.out = vfNone(v)
+	}
+	return o, tags, omk
 }
 
 // TestVerifRulesReplay: VERIF_IN holds one vector per line.  The vectors are cut into
 // chunks; every chunk is one trace: evaluated once in order and once more in another
 // order (so that the caches keyed by tag text / key / type are in different states).
 // VERIF_RULES_MODE=order keeps TLC's order (second pass shuffled); =shuffle permutes
-// all vectors first (second pass reversed).
+// all vectors first (second pass reversed).  After every accepted call the driver, as the
+// owner of the target, overwrites everything reachable from it in place (keep=false).
 func TestVerifRulesReplay(t *testing.T) {
 	em := verifOpen(t)
 	defer em.Close()
@@ -724,22 +944,8 @@ func TestVerifRulesReplay(t *testing.T) {
 		rng.Shuffle(len(ids), func(i, j int) { ids[i], ids[j] = ids[j], ids[i] })
 	}
 	emit := func(id, pass int) {
-		o, tags := vfRun(vecs[id], id+base)
-		ev := verifEv{}
-		for k, x := range raws[id] {
-			ev[k] = x
-		}
-		ev["e"] = "vec"
-		ev["id"] = id + base
-		ev["pass"] = pass
-		ev["acc"] = o.acc
-		ev["pan"] = o.pan
-		ev["out"] = o.out
-		ev["Err"] = o.err
-		ev["Tags"] = tags
-		ev["Call"] = o.call
-		ev["Input"] = o.input
-		em.Emit(ev)
+		o, tags, omk := vfRun(vecs[id], id+base)
+		em.Emit(vfVecEvent(raws[id], id+base, pass, o, tags, o.out, omk, 0, false))
 	}
 	for c := 0; c*chunk < len(ids); c++ {
 		hi := (c + 1) * chunk
